@@ -60,8 +60,13 @@ class GraphServer(UDSServer):
 
     def __init__(self, sessions: list[int], edges: set[tuple[int, int]], realisation: str = "A",
                  nrc_salt: int = 0, cap: int = 10**9, mutant: str | None = None,
-                 reset_mode: str = "absent") -> None:
+                 reset_mode: str = "absent", slow: float = 0.0) -> None:
         super().__init__()
+        # slow > 0: an accepted session change takes `slow` seconds; the ECU announces it with
+        # requestCorrectlyReceived-ResponsePending (0x78) and answers within its P2* (5 s, as it reports in the
+        # positive DiagnosticSessionControl reply), as ISO 14229 allows for every service
+        self.slow = slow
+        self.writer: Any = None
         # ECUReset (only asked for with the scanner's --reset option):
         #   "absent"  not answered, nothing happens          "pos"    positive answer, back to the default session
         #   "neg"     refused (conditionsNotCorrect)         "silent" performed (default session) but not answered
@@ -134,6 +139,10 @@ class GraphServer(UDSServer):
             response = service.ECUResetResponse(request.pdu[1] & 0x7F)
             await self.update_state(request, response)
             return response
+        if (self.slow > 0 and request.service_id == DSC and len(request.pdu) == 2 and self.writer is not None
+                and (before, request.pdu[1] & 0x7F) in self.edges and not request.pdu[1] & 0x80):
+            self.writer.write(b"7f1078\n")
+            await asyncio.sleep(self.slow)
         response = await super().respond(request)
         after = self.state.session
         if request.service_id == DSC and len(request.pdu) >= 2:
@@ -180,7 +189,7 @@ class RecordingDB:
         return noop
 
 
-def _link(server_tr: TCPUDSServerTransport) -> tuple[Listener, list[asyncio.Task[None]]]:
+def _link(server_tr: TCPUDSServerTransport, srv: Any = None) -> tuple[Listener, list[asyncio.Task[None]]]:
     """Listener whose accepted connections are served by the real handle_client."""
     tasks: list[asyncio.Task[None]] = []
     lis = Listener()
@@ -191,6 +200,8 @@ def _link(server_tr: TCPUDSServerTransport) -> tuple[Listener, list[asyncio.Task
         cw.on_client_close = sw.eof
         sw.on_out = cw.feed
         sw.on_client_close = cw.eof
+        if srv is not None:
+            srv.writer = sw.writer
         tasks.append(asyncio.get_running_loop().create_task(
             server_tr.handle_client(sw.reader, sw.writer), name="vecu"))  # type: ignore[arg-type]
 
@@ -213,7 +224,7 @@ def run_scan(case: dict[str, Any]) -> dict[str, Any]:
     edges = {(int(f), int(t)) for f, t in case["E"]}
     cap = request_cap(len(sessions), case["depth"])
     srv = GraphServer(sessions, edges, case.get("real", "A"), case.get("salt", 0), cap, case.get("mutant"),
-                      case.get("reset_mode", "absent"))
+                      case.get("reset_mode", "absent"), float(case.get("slow", 0.0)))
     st = TCPUDSServerTransport(srv, TargetURI("tcp-lines://127.0.0.1:20162"))
     kw: dict[str, Any] = {}
     if case.get("skip_text"):
@@ -246,7 +257,7 @@ def run_scan(case: dict[str, Any]) -> dict[str, Any]:
     out: dict[str, Any] = {"end": "hang", "exc": ""}
 
     async def go() -> None:
-        lis, tasks = _link(st)
+        lis, tasks = _link(st, srv)
         st.last_time_active = asyncio.get_running_loop().time()
         with patched_connections(lis):
             try:
